@@ -252,6 +252,10 @@ static void c11SetPayload(W& w)
                 if (p.getVersion() != 0x11 || p.getDeviceId() != 0x2233 || p.getStreamId() != 0x44 || p.getSequenceCounter() != 0x5566 || p.getTimestamp() != 0x778899AABBCCDDEEull ||
                     p.getInterfaceId() != 0x0F1E2D3C || p.getVendorId() != 0x4B5A || p.getCommonFlags() != 0x23)
                     w.fail("side-effect:Packet::setPayload", "setPayload('" + pool[q].first + "') changed a header field of the packet: {" + got + "}");
+                // ... and handing the packet its OWN payload (a reference into itself) changes nothing
+                p.setPayload(p.getPayload());
+                if (c14::observe(p, true) != got)
+                    w.fail("set-get-mismatch:Packet::Payload:own-payload", "setPayload(getPayload()) on a packet holding '" + pool[q].first + "' changed it: {" + c14::observe(p, true) + "} was {" + got + "}");
                 if (got != want)
                     w.fail("set-get-mismatch:Packet::Payload", "setPayload('" + pool[q].first + "') on a packet that held " + (prior < 0 ? std::string("nothing") : "'" + pool[(size_t) prior].first + "'") +
                                                                    ": {" + got + "} a fresh packet reads {" + want + "}");
